@@ -212,7 +212,7 @@ def _check_one(pc, insts, goal, timeout_ms, use_cvc5):
     # first a quantifier-free attempt: the ground hypotheses and the generated instances only (fewer
     # hypotheses, so 'unsat' is sound); quantified hypotheses often send the solver into 'unknown'
     # although the instances already at hand suffice
-    if insts and not _has_quant(goal) and any(_has_quant(p) for p in pc):
+    if not _has_quant(goal) and any(_has_quant(p) for p in pc):
         s0 = z3.Solver()
         s0.set("timeout", short)
         for p in pc:
